@@ -185,7 +185,9 @@ func (r *Run) codecSequences(reg codecRegion) []string {
 			}
 		case pathsim.EvLoopExit:
 			if reg.Loop != nil && ev.Node == ast.Node(reg.Loop) {
-				record(s)
+				if !ev.Break {
+					record(s) // a break abandons the record in progress (end of input, error)
+				}
 				s.A, s.B = 0, 0
 				return []pathsim.State{s}
 			}
